@@ -8,7 +8,7 @@ META = {
     "engine": "AEProduct(AELexer x AEHTMLTok/AEJSLex/AECSSLex)+AEContext+AEConfine",
     "technique": "TLA+ product automaton of an implementation-shaped model of lexer.scan and a reference WHATWG-HTML/JavaScript/CSS/JSON tokenizer, explored by TLC to a fix-point over a fragment alphabet (documents of unbounded length); every reachable product state's shortest document is built by the real code with a show at every fragment boundary (real ast.Show contexts judged against the reference slots by TLC: candidates and root causes), then rendered with a context-breaking value dictionary; TLC tokenises every rendered output with the reference tokenizers and compares its structure signature with that of the benign rendering",
     "level": "model_checking",
-    "level_text": "MC_AEProduct: TLC explores the product of AELexer (lexer.scan transcribed branch by branch) and the reference tokenizers over 16 (quick) / 63 (thorough) fragments to a fix-point; states that neither agree nor are confinement-compatible are breaking edges (diagnostic). Context level: every exported document is built by the real lexer with `{{ x }}` at each boundary; Trace_AEContext runs the reference over the bytes, computes Agree / Compatible / root cause per boundary and reports model drift of AELexer. Confinement level (the verdict): for at least one hole per reachable (context, URL, slot, attribute kind, root cause) class, at the end of a document and in front of a suffix, the document is rendered with ~100 values (strings, numbers, booleans, Stringer, error, slices, maps, structs; trusted types as negative control), directly and through a macro, an in-place macro, an imported macro and rendered .html/.txt files; Trace_AEConfine requires Signature(output with value) = Signature(output with the benign value of the same type and shape).",
+    "level_text": "MC_AEProduct: TLC explores the product of AELexer (lexer.scan transcribed branch by branch) and the reference tokenizers over 16 fragments (quick) / 63 fragments broad + 26 fragments deep (thorough): the region where both machines are in step to its fix-point, and a bounded number of fragments behind every root cause; states that neither agree nor are confinement-compatible are breaking edges (diagnostic). Context level: every exported document is built by the real lexer with `{{ x }}` at each boundary; Trace_AEContext runs the reference over the bytes, computes Agree / Compatible / root cause per boundary and reports model drift of AELexer. Confinement level (the verdict): for at least one hole per reachable (context, URL, slot, attribute kind, root cause) class, at the end of a document and in front of a suffix, the document is rendered with ~100 values (strings, numbers, booleans, Stringer, error, slices, maps, structs; trusted types as negative control), directly and through a macro, an in-place macro, an imported macro and rendered .html/.txt files; Trace_AEConfine requires Signature(output with value) = Signature(output with the benign value of the same type and shape).",
     "level_note": "Trusted: TLC, the Json module, the reference tokenizers themselves (WHATWG tokenizer without character-reference decoding, foreign content and noscript; JavaScript lexical grammar with the usual regex heuristic; css-syntax token boundaries), the driver (concretises documents, calls BuildTemplate/Run, reads ast.Show.Context in ExpandedTransformer, logs). Event-handler and style attribute values are not re-parsed as JS/CSS (they are only candidates); URL structure inside URL attributes is not part of the signature; Markdown/JS/CSS/JSON files as top-level formats are not generated.",
     "design_ref": "7/C06",
 }
@@ -34,38 +34,58 @@ def show_doc(frags, hole):
 
 
 # ------------------------------------------------------------------------------------------------ MC
+DEEP_FRAGS = [1, 2, 3, 4, 5, 6, 7, 8, 9, 10, 11, 12, 13, 14, 16, 17, 18, 19, 20, 26, 27, 28, 29, 30, 32, 33]
+
+
 def model_check(ctx):
-    wd = ctx.stage("mc", FAMS)
-    use = ctx.pick(QUICK_FRAGS, FULL_FRAGS)
-    rig.write_cfg(wd / "MC_AEProduct.cfg", constants={"Use": set(use), "MaxDoc": 40}, invariants=["BelowBound"], view="View")
-    r = ctx.tlc(wd, "MC_AEProduct", workers=rig.NCPU, timeout=1500, coverage=False, dump=[str(wd / "states.dump")])
-    if not r.ok:
-        raise Infra(f"MC_AEProduct failed (fix-point not reached below MaxDoc, or TLC error): {wd}/MC_AEProduct.out\n" + rig.tail(r.out, 25))
-    frags = {f["id"]: f["b"] for f in rig.read_ndjson(wd / "frags.ndjson")}
-    docs, edges, roots, nbroken = [], collections.Counter(), collections.Counter(), 0
-    for blk in (wd / "states.dump").read_text().split("\n\n"):
-        m = re.search(r"/\\ doc = <<(.*?)>>", blk, re.S)
-        if not m:
-            continue
-        d = [int(x) for x in m.group(1).replace("\n", " ").split(",") if x.strip()]
-        broken = "broken = TRUE" in blk
-        docs.append((d, broken))
-        if broken:
-            nbroken += 1
-            e = re.search(r"/\\ edge = (<<.*?>>)\n", blk + "\n", re.S)
-            ro = re.search(r"/\\ root = (<<.*?>>)\n", blk + "\n", re.S)
-            edges[re.sub(r"\s+", " ", e.group(1))] += 1
-            roots[re.sub(r"\s+", " ", ro.group(1))] += 1
-    if len(docs) != r.distinct:
-        raise Infra(f"dump has {len(docs)} states, TLC reported {r.distinct}")
-    ctx.cov.update(states=r.distinct, transitions=r.generated, mc_wall_s=round(r.wall, 1), fragments=len(use),
-                   product_states_compatible=r.distinct - nbroken, product_states_broken=nbroken,
+    """quick: 16 fragments, exploration behind a root cause unbounded (MaxDiv = MaxDoc);
+       thorough: all 63 fragments with 2 fragments behind a root cause (broad) and 26 fragments with 5 (deep)."""
+    runs = ctx.pick([("mc", QUICK_FRAGS, 0)], [("mc_broad", FULL_FRAGS, 2), ("mc_deep", DEEP_FRAGS, 5)])
+
+    def one(run):
+        step, use, maxdiv = run
+        wd = ctx.stage(step, FAMS)
+        rig.write_cfg(wd / "MC_AEProduct.cfg", constants={"Use": set(use), "MaxDoc": 40, "MaxDiv": maxdiv}, invariants=["BelowBound"], view="View")
+        r = ctx.tlc(wd, "MC_AEProduct", workers=max(4, rig.NCPU // len(runs)), timeout=2400, coverage=False, dump=[str(wd / "states.dump")])
+        if not r.ok:
+            raise Infra(f"MC_AEProduct failed (fix-point not reached below MaxDoc, or TLC error): {wd}/MC_AEProduct.out\n" + rig.tail(r.out, 25))
+        return wd, r
+    with ThreadPoolExecutor(max_workers=len(runs)) as ex:
+        res = list(ex.map(one, runs))
+    docs, edges, roots, nbroken, instep = [], collections.Counter(), collections.Counter(), 0, 0
+    frags = None
+    for (wd, r), run in zip(res, runs):
+        frags = {f["id"]: f["b"] for f in rig.read_ndjson(wd / "frags.ndjson")}
+        n = 0
+        for blk in (wd / "states.dump").read_text().split("\n\n"):
+            m = re.search(r"/\\ doc = <<(.*?)>>", blk, re.S)
+            if not m:
+                continue
+            n += 1
+            d = [int(x) for x in m.group(1).replace("\n", " ").split(",") if x.strip()]
+            broken = "broken = TRUE" in blk
+            div = int(re.search(r"/\\ div = (\d+)", blk).group(1))
+            docs.append((d, broken, div, run[1]))
+            instep += div == 0
+            if broken:
+                nbroken += 1
+                e = re.search(r"/\\ edge = (<<.*?>>)\n", blk + "\n", re.S)
+                ro = re.search(r"/\\ root = (<<.*?>>)\n", blk + "\n", re.S)
+                edges[re.sub(r"\s+", " ", e.group(1))] += 1
+                roots[re.sub(r"\s+", " ", ro.group(1))] += 1
+        if n != r.distinct:
+            raise Infra(f"dump has {n} states, TLC reported {r.distinct} ({wd})")
+    ctx.cov.update(states=sum(r.distinct for _, r in res), transitions=sum(r.generated for _, r in res),
+                   mc_wall_s=round(max(r.wall for _, r in res), 1), mc_runs=[{"fragments": len(u), "behind_root": d, "states": r.distinct, "transitions": r.generated}
+                                                                           for (_, r), (_, u, d) in zip(res, runs)],
+                   product_states_in_step=instep, product_states_broken=nbroken,
                    breaking_edges=len(edges), breaking_edge_roots=len(roots),
-                   bounds=f"{len(use)} fragments, fix-point (depth of the state graph below MaxDoc=40), template nesting <= 3")
+                   bounds="; ".join(f"{len(u)} fragments: synchronised region to its fix-point, {d or 'unboundedly many'} fragments behind a root cause" for _, u, d in runs)
+                          + "; depth of every state graph below MaxDoc=40; template nesting <= 3")
     if edges:
         ctx.cov["model_counterexample"] = {"invariants": ["Sync"], "breaking_edges": len(edges),
-                                           "roots": [k for k, _ in roots.most_common(40)], "tlc_out": str(wd / "MC_AEProduct.out")}
-    return docs, frags, use
+                                           "roots": [k for k, _ in roots.most_common(40)], "tlc_out": str(res[0][0] / "MC_AEProduct.out")}
+    return docs, frags
 
 
 # ------------------------------------------------------------------------------------------------ judges
@@ -89,52 +109,107 @@ def run_shards(ctx, step, module, recs, outname, shard, consts=None):
     return [x for part in res for x in part]
 
 
-SCRIPT_OPEN = rig.s2b("<script>")
-A_HREF = rig.s2b('<a href="')
+def build_tree(docs):
+    """prefix tree of the documents (lists of fragment ids); nodes in DFS preorder, parents first"""
+    children = {}
+    for d in docs:
+        for i in range(len(d)):
+            children.setdefault(tuple(d[:i]), set()).add(d[i])
+    nodes, index = [], {}
+    stack = [((), 0)]
+    while stack:
+        pre, parent = stack.pop()
+        nid = len(nodes) + 1
+        index[pre] = nid
+        nodes.append({"id": nid, "parent": parent, "pre": pre})
+        for f in sorted(children.get(pre, ()), reverse=True):
+            stack.append((pre + (f,), nid))
+    return nodes, index
 
 
-def context_level(ctx, step, cases):
+def context_level(ctx, step, docs, frags):
+    """docs: lists of fragment ids.  Returns per-node info {prefix tuple: {...class of the boundary...}}."""
+    nodes, index = build_tree(docs)
     cfile = ctx.work / f"{step}_cases.ndjson"
-    rig.write_ndjson(cfile, cases)
+    rig.write_ndjson(cfile, [{"id": n["id"], "frags": [frags[f] for f in n["pre"]]} for n in nodes])
     ofile = ctx.work / f"{step}_obs.ndjson"
     ctx.drive("c06", cfile, ofile, args=["-mode", "ctx"], timeout=1200)
-    obs = rig.read_ndjson(ofile)
-    if len(obs) != len(cases):
-        raise Infra(f"ctx driver returned {len(obs)} observations for {len(cases)} cases")
-    # sensitivity self-test, context level: a real context replaced by another one must be flagged
-    # incompatible (judged in the same TLC runs as the real observations, ids >= 9000000)
+    real = {o["id"]: o for o in rig.read_ndjson(ofile)}
+    if len(real) != len(nodes):
+        raise Infra(f"ctx driver returned {len(real)} observations for {len(nodes)} documents")
+    # shards: contiguous preorder ranges, each preceded by the ancestors of its first node
+    nsh = max(1, min(rig.NCPU - 4, 8, -(-len(nodes) // 400)))
+    size = -(-len(nodes) // nsh)
+    shards = []
+    for k in range(0, len(nodes), size):
+        chunk = nodes[k:k + size]
+        anc, p = [], chunk[0]["parent"]
+        while p:
+            anc.append(nodes[p - 1])
+            p = nodes[p - 1]["parent"]
+        recs, pos = [], {}
+        for n in list(reversed(anc)) + chunk:
+            pos[n["id"]] = len(recs) + 1
+            o = real[n["id"]]
+            recs.append({"id": n["id"], "p": pos.get(n["parent"], 0), "frag": frags[n["pre"][-1]] if n["pre"] else [], "ctx": o["ctx"], "url": o["url"]})
+        shards.append((recs, len(anc)))
+    # sensitivity self-test, context level (same TLC run as the real observations, ids >= 9000000):
+    # a real context replaced by another one must be flagged incompatible
     st = []
-    for o in obs:
-        if o["frags"] == [SCRIPT_OPEN] and o["ctx"] == [1, 3]:
-            st.append(dict(o, id=9000001, ctx=[1, 1]))          # pretend the lexer stayed in HTML inside <script>
-        if o["frags"] == [A_HREF] and o["ctx"] == [1, 7]:
-            st.append(dict(o, id=9000002, ctx=[1, 3], url=[0, 0]))  # pretend it went to JS inside an attribute value
-    n = max(2, min(rig.NCPU - 4, 8))
-    shard = max(300, -(-(len(obs) + len(st)) // n))
-    out = run_shards(ctx, step, "Trace_AEContext", obs + st, "ctxout.ndjson", shard)
-    sout = out[len(obs):]
-    rej = sum(1 for r in sout if r["compat"][-1] == 0)
-    ctx.notes["selftest_ctx"] = (len(st), rej)
-    if st and rej < len(st):
+    sid, aid = index.get((1,)), index.get((3,))
+    if sid and real[sid]["ctx"] == 3:
+        st.append({"id": 9000001, "p": 1, "frag": frags[1], "ctx": 1, "url": 0})       # HTML inside <script>
+    if aid and real[aid]["ctx"] == 7:
+        st.append({"id": 9000002, "p": 1, "frag": frags[3], "ctx": 3, "url": 0})       # JS inside <a href="
+    recs0, nanc0 = shards[0]
+    assert recs0[0]["p"] == 0 and recs0[0]["frag"] == []
+    shards[0] = (recs0 + st, nanc0)
+
+    def one(i):
+        wd = ctx.stage(f"{step}_{i}", FAMS)
+        rig.write_ndjson(wd / "obs.ndjson", shards[i][0])
+        rig.write_cfg(wd / "Trace_AEContext.cfg", invariants=["Done"], postcondition="Consumed")
+        r = ctx.tlc(wd, "Trace_AEContext", workers=1, timeout=1500)
+        if not r.ok or not (wd / "ctxout.ndjson").exists():
+            raise Infra(f"Trace_AEContext did not complete: {wd}/Trace_AEContext.out\n" + rig.tail(r.out, 25))
+        out = rig.read_ndjson(wd / "ctxout.ndjson")
+        if len(out) != len(shards[i][0]):
+            raise Infra(f"Trace_AEContext: {len(out)} lines for {len(shards[i][0])} records ({wd})")
+        return out[shards[i][1]:]
+    with ThreadPoolExecutor(max_workers=len(shards)) as ex:
+        outs = [x for part in ex.map(one, range(len(shards))) for x in part]
+    sout = [r for r in outs if r["id"] >= 9000000]
+    rej = sum(1 for r in sout if r["compat"] == 0)
+    n0, r0 = ctx.notes.get("selftest_ctx", (0, 0))
+    ctx.notes["selftest_ctx"] = (n0 + len(st), r0 + rej)
+    if rej < len(st):
         raise Infra(f"sensitivity self-test (context level) failed: {rej}/{len(st)} corrupted contexts flagged")
-    return obs, out[:len(obs)]
+    info = {}
+    byid = {r["id"]: r for r in outs if r["id"] < 9000000}
+    if len(byid) != len(nodes):
+        raise Infra(f"context level: {len(byid)} judged nodes of {len(nodes)}")
+    for n in nodes:
+        r, o = byid[n["id"]], real[n["id"]]
+        info[n["pre"]] = {"ctx": o["ctx"], "url": o["url"], "slot": r["slot"], "kind": r["kind"], "agree": r["agree"], "compat": r["compat"],
+                          "root": r["root"], "drift": r["drift"], "mctx": r["mctx"]}
+    return info
 
 
-def holes_of(obs, out):
-    """every observed boundary with its class, as produced by Trace_AEContext"""
-    for o, r in zip(obs, out):
-        assert o["id"] == r["id"]
-        n = len(o["ctx"])
-        for i in range(n):
-            c = o["ctx"][i]
+def holes_of(docs, info, frags):
+    """every observed boundary of every document with its class, as computed by Trace_AEContext"""
+    for d in docs:
+        fb = [frags[f] for f in d]
+        for i in range(len(d) + 1):
+            x = info[tuple(d[:i])]
+            c = x["ctx"]
             if c < 0:
                 continue
-            root = r["root"][i]
-            rk = "none" if "none" in root else json.dumps([root["ctx"], root["slot"], root["kind"], root["frag"]])
-            yield {"frags": o["frags"], "hole": i, "end": i == n - 1, "compat": r["compat"][i], "agree": r["agree"][i],
-                   "pt": {"ctx": CN.get(c, "none"), "url": o["url"][i], "slot": r["slot"][i], "kind": r["kind"][i],
+            root = x["root"]
+            rk = "none" if "none" in root else json.dumps([root["ctx"], root["slot"], root["kind"], root["toctx"], root["to"], root["tokind"]])
+            yield {"frags": fb, "hole": i, "end": i == len(d), "compat": x["compat"], "agree": x["agree"],
+                   "pt": {"ctx": CN.get(c, "none"), "url": x["url"], "slot": x["slot"], "kind": x["kind"],
                           "root": "none" if "none" in root else root},
-                   "key": (CN.get(c, "none"), o["url"][i], r["slot"][i], r["kind"][i], rk)}
+                   "key": (CN.get(c, "none"), x["url"], x["slot"], x["kind"], rk)}
 
 
 def select(ctx, holes, per_key):
@@ -208,40 +283,49 @@ def bads_of(obs, judged):
 def run(ctx, only_case=None):
     if only_case is not None:
         return run_cases(ctx, [only_case], replaying=True)
-    docs, frags, use = model_check(ctx)
-    # 1. context level: every product state's document (+ every transition out of it in thorough)
-    cases, seen = [], set()
+    docs, frags = model_check(ctx)
+    # 1. context level: the document of every product state, every transition out of a state of the
+    #    synchronised region (thorough: out of every state of the deep run as well)
+    dl, seen = [], set()
 
     def add(d):
         t = tuple(d)
         if t not in seen:
             seen.add(t)
-            cases.append({"id": len(cases) + 1, "frags": [frags[x] for x in d]})
-    for d, broken in docs:
+            dl.append(list(d))
+    for d, broken, div, use in docs:
         add(d)
-    nstate_docs = len(cases)
-    if not ctx.quick:
-        budget = 60000
-        for d, broken in docs:
-            if broken:
-                continue
+    nstate_docs = len(dl)
+    for d, broken, div, use in docs:
+        if not broken and div == 0:
             for f in use:
-                if len(cases) >= budget:
-                    break
                 add(d + [f])
-    obs, out = context_level(ctx, "ctx", cases)
-    nb = sum(len(o["ctx"]) for o in obs)
-    drift = sum(sum(r["drift"]) for r in out)
-    ctx.cov.update(documents=len(cases), state_documents=nstate_docs, boundaries=nb,
-                   boundaries_not_built=sum(1 for o in obs for c in o["ctx"] if c == -1),
-                   boundaries_inert=sum(1 for o in obs for c in o["ctx"] if c == -2),
-                   host_panics_ctx=sum(1 for o in obs for c in o["ctx"] if c == -3))
-    if drift:
-        ex = next((show_doc(o["frags"], i), CN.get(o["ctx"][i]), r["mctx"][i]) for o, r in zip(obs, out) for i in range(len(o["ctx"])) if r["drift"][i])
-        ctx.cov["model_drift"] = f"{drift} of {nb} boundaries: AELexer predicts another context than the real lexer, e.g. {ex} (diagnostic only)"
+    info = context_level(ctx, "ctx", dl, frags)
+    hole_docs = [d for d, _, _, _ in docs]
+    drifted = sorted((pre for pre, x in info.items() if x["drift"]), key=len)
+    if drifted:
+        # the real lexer is in another state than the model after these documents: explore what follows them
+        ex = drifted[0]
+        ctx.cov["model_drift"] = (f"{len(drifted)} of {len(info)} boundaries: AELexer predicts another context than the real lexer, e.g. "
+                                  f"{text([frags[f] for f in ex])!r}: real {CN.get(info[ex]['ctx'])}, model {info[ex]['mctx']} (diagnostic; continuations of the drifted documents are explored)")
+        cont = ctx.pick(QUICK_FRAGS, DEEP_FRAGS)
+        more = []
+        for pre in drifted[:ctx.pick(12, 40)]:
+            for f in cont:
+                more.append(list(pre) + [f])
+                for g in cont:
+                    more.append(list(pre) + [f, g])
+        info2 = context_level(ctx, "ctx2", more, frags)
+        info.update(info2)
+        hole_docs += more
     else:
         ctx.cov["model_drift_boundaries"] = 0
-    holes = list(holes_of(obs, out))
+    nb = len(info)
+    ctx.cov.update(documents=len(dl), state_documents=nstate_docs, boundaries=nb,
+                   boundaries_not_built=sum(1 for x in info.values() if x["ctx"] == -1),
+                   boundaries_inert=sum(1 for x in info.values() if x["ctx"] == -2),
+                   host_panics_ctx=sum(1 for x in info.values() if x["ctx"] == -3))
+    holes = list(holes_of(hole_docs, info, frags))
     classes = {h["key"][:4] for h in holes}
     ctx.cov.update(ctx_slot_pairs=len(classes), candidate_pairs=len({h["key"][:4] for h in holes if not h["compat"]}),
                    root_causes_seen=len({h["key"][4] for h in holes if h["key"][4] != "none"}))
@@ -251,9 +335,11 @@ def run(ctx, only_case=None):
     via_seen = set()
     for h in chosen:
         ccases.append({"id": len(ccases) + 1, "frags": h["frags"], "hole": h["hole"], "via": "direct", "pt": h["pt"]})
-        vk = h["key"][:4] if ctx.quick else h["key"]
-        if (h["key"][4] == "none" or not ctx.quick) and vk + (h["end"],) not in via_seen:
-            via_seen.add(vk + (h["end"],))
+        # the other ways of reaching the hole: quick, once per real (context, url) in a synchronised hole;
+        # thorough, for every class
+        vk = (h["key"][:2] + (h["end"],)) if ctx.quick else (h["key"] + (h["end"],))
+        if (not ctx.quick or (h["key"][4] == "none" and h["agree"])) and vk not in via_seen:
+            via_seen.add(vk)
             for v in VIAS:
                 ccases.append({"id": len(ccases) + 1, "frags": h["frags"], "hole": h["hole"], "via": v, "pt": h["pt"]})
     return run_cases(ctx, ccases)
@@ -290,11 +376,8 @@ def run_cases(ctx, ccases, replaying=False):
     known, unknown = ctx.classify(bads)
     confirmed = [b for _, lst in known.values() for b in lst]
     if unknown:
-        ex = {}
-        for b in unknown:
-            ex.setdefault(json.dumps(b["sig"], sort_keys=True), b)
         rcases, idmap = [], {}
-        for b in list(ex.values())[:300]:
+        for b in unknown:
             k = json.dumps(b["case"], sort_keys=True)
             if k not in idmap:
                 idmap[k] = len(rcases) + 1
